@@ -11,6 +11,7 @@ import (
 	"github.com/internetarchive/Zeno/internal/pkg/log"
 	"github.com/internetarchive/Zeno/internal/pkg/reactor"
 	"github.com/internetarchive/Zeno/internal/pkg/source/lq/sqlc_model"
+	"github.com/internetarchive/Zeno/internal/pkg/verifhook"
 	"github.com/internetarchive/Zeno/pkg/models"
 )
 
@@ -111,6 +112,7 @@ func consumerFetcher(ctx context.Context, wg *sync.WaitGroup, urlBuffer chan<- *
 				Status:    URLs[i].Status,
 				Timestamp: URLs[i].Timestamp,
 			}: //Deep copy of the URL to ensure pointer alisaing does not cause issues
+				verifhook.At("lq.buffer.put", URLs[i].ID)
 			}
 		}
 
@@ -164,6 +166,7 @@ func consumerSender(ctx context.Context, wg *sync.WaitGroup, urlBuffer <-chan *s
 			}
 
 			logger.Debug("sending new item to reactor", "item", newItem.GetShortID())
+			verifhook.At("lq.sender.take", newItem.GetID())
 
 			// Send the new Item to the reactor
 			err = reactor.ReceiveInsert(newItem)
